@@ -20,7 +20,7 @@ using namespace QHttpEngine;
 Val headersVal(const Socket::HeaderMap &h);
 
 struct SockRun {
-    SimTcp *tcp = nullptr;
+    QTcpSocket *tcp = nullptr;
     QPointer<Socket> sock;
     Val log = Val::List();
     Val policy;
@@ -78,28 +78,79 @@ Val run_sock(const Val &c)
     SockRun r;
     r.policy = c.at(0);
     if (r.policy.size() != 3) return badcase();
-    r.tcp = new SimTcp;
-    r.tcp->onWrite = [&r](const QByteArray &b) { r.log.add(Val::List({Val::Int(5), Val::Bytes(b)})); };
-    r.tcp->onClose = [&r]() { r.log.add(Val::List({Val::Int(6)})); };
-    QPointer<SimTcp> tcpGuard(r.tcp);
+    SimTcp *sim = new SimTcp;
+    r.tcp = sim;
+    sim->onWrite = [&r](const QByteArray &b) { r.log.add(Val::List({Val::Int(5), Val::Bytes(b)})); };
+    sim->onClose = [&r]() { r.log.add(Val::List({Val::Int(6)})); };
+    QPointer<SimTcp> tcpGuard(sim);
     long long opIndex = 0;
     for (auto &op : c.at(1).l) {
         r.log.add(Val::List({Val::Int(20), Val::Int(opIndex++)}));
         switch (op.at(0).asInt()) {
-        case 0: if (r.sock) { if (tcpGuard) r.tcp->feed(op.at(1).asBytes()); } else r.tcp->queue(op.at(1).asBytes()); break;
-        case 1: if (tcpGuard) r.tcp->ack(op.at(1).asInt()); break;
-        case 2: if (tcpGuard) r.tcp->peerFin(); break;
+        case 0: if (r.sock) { if (tcpGuard) sim->feed(op.at(1).asBytes()); } else sim->queue(op.at(1).asBytes()); break;
+        case 1: if (tcpGuard) sim->ack(op.at(1).asInt()); break;
+        case 2: if (tcpGuard) sim->peerFin(); break;
         case 3: QCoreApplication::sendPostedEvents(nullptr, QEvent::MetaCall); break;
         case 4: if (!r.sock) r.construct(); break;
-        case 5: if (tcpGuard) r.tcp->peerDrop(); break;
+        case 5: if (tcpGuard) sim->peerDrop(); break;
         case 10: r.aop(op.at(1)); break;
         default: throw std::runtime_error("badcase");
         }
     }
     // tear down: the Socket owns the transport once constructed
-    if (r.sock) delete r.sock.data(); else delete r.tcp;
+    if (r.sock) delete r.sock.data(); else delete sim;
     QCoreApplication::sendPostedEvents(nullptr, QEvent::DeferredDelete);
     return r.log;
 }
 
-void reg_sock() { registerFamily("sock", run_sock); }
+// family "socknet": the same cases over a REAL loopback connection (Feed = the client writes; Turn = the event loop runs;
+// acknowledgements are the kernel's business).  obs ::= ( bytesReceivedByTheClient clientSawDisconnect )
+#include <QElapsedTimer>
+#include <QTcpServer>
+static Val run_socknet(const Val &c)
+{
+    auto pumpTill = [](std::function<bool()> cond, int maxMs) {
+        QElapsedTimer t; t.start();
+        while (!cond()) { if (t.elapsed() > maxMs) return false; QCoreApplication::processEvents(QEventLoop::AllEvents, 5); }
+        return true;
+    };
+    SockRun r;
+    r.policy = c.at(0);
+    if (r.policy.size() != 3) return badcase();
+    QTcpServer srv;
+    if (!srv.listen(QHostAddress::LocalHost, 0)) throw std::runtime_error("nolisten");
+    QTcpSocket client;
+    QByteArray got;
+    QObject::connect(&client, &QTcpSocket::readyRead, [&]() { got += client.readAll(); });
+    client.connectToHost(QHostAddress::LocalHost, srv.serverPort());
+    pumpTill([&]() { return srv.hasPendingConnections() && client.state() == QAbstractSocket::ConnectedState; }, 3000);
+    QTcpSocket *peer = srv.nextPendingConnection();
+    if (!peer) throw std::runtime_error("noaccept");
+    peer->setParent(nullptr);
+    r.tcp = peer;
+    QPointer<QTcpSocket> peerGuard(peer);
+    for (auto &op : c.at(1).l) {
+        switch (op.at(0).asInt()) {
+        case 0:
+            if (client.state() == QAbstractSocket::ConnectedState) {
+                client.write(op.at(1).asBytes()); client.flush();
+                // until the server side has taken the bytes out of its socket (or the connection is gone)
+                pumpTill([&]() { return !peerGuard || client.bytesToWrite() == 0; }, 1000);
+                for (int i = 0; i < 4; ++i) QCoreApplication::processEvents(QEventLoop::AllEvents, 3);
+            }
+            break;
+        case 3: for (int i = 0; i < 3; ++i) QCoreApplication::processEvents(QEventLoop::AllEvents, 3); break;
+        case 4: if (!r.sock && peerGuard) r.construct(); break;
+        case 10: r.aop(op.at(1)); break;
+        default: throw std::runtime_error("badcase");        // acks, FIN and resets belong to the simulated transport
+        }
+    }
+    bool closed = pumpTill([&]() { return client.state() == QAbstractSocket::UnconnectedState; }, 150);
+    for (int i = 0; i < 3; ++i) QCoreApplication::processEvents(QEventLoop::AllEvents, 3);
+    client.abort();
+    if (r.sock) delete r.sock.data(); else if (peerGuard) delete peer;
+    QCoreApplication::sendPostedEvents(nullptr, QEvent::DeferredDelete);
+    return Val::List({Val::Bytes(got), Val::Bool(closed)});
+}
+
+void reg_sock() { registerFamily("sock", run_sock); registerFamily("socknet", run_socknet); }
